@@ -1309,6 +1309,12 @@ fn run_corpus(rep: &mut Report, lines: &mut Vec<(String, String)>) {
             } else if let Some(v) = check_contract(&s.recs) {
                 rep.violation(&v.0, &format!("corpus {}: {}", name, v.1), format!("{{\"corpus\": {}, \"history\": {}}}", jstr(&name), jstr(l)));
             }
+            else if snap(&s.enc).fin {
+                let fed: Vec<u8> = s.recs.iter().filter_map(|r| if let Call::Stream { op, data, .. } = &r.call { if *op != OP_METADATA && r.ret { Some(data[..r.consumed].to_vec()) } else { None } } else { None }).flatten().collect();
+                if let Err(e) = dec::decode_both(&s.delivered, snap(&s.enc).lw, &fed) {
+                    rep.violation("stream:roundtrip", &format!("corpus {}: {}", name, e), format!("{{\"corpus\": {}, \"history\": {}}}", jstr(&name), jstr(l)));
+                } else { rep.count("corpus.decoded"); }
+            }
             if let Some(cl) = corr_line(&s, true) { lines.push(cl); }
         }
     }
